@@ -114,6 +114,29 @@ fn run_damaged(h: &History, flips: &[u16], cx: &mut Cx) -> CaseResult {
         cx.label("damaged-no-complete-band");
         return Ok(());
     }
+    // Incomplete versions that have a head: no model snapshot exists for them, so the
+    // oracle is "restores the same as before the damage" (tree and whether errors were reported).
+    let incomplete: Vec<u32> = pre
+        .bands
+        .iter()
+        .filter(|(_, b)| b.head.present_nonempty() && b.tail.is_absent())
+        .map(|(id, _)| *id)
+        .collect();
+    let mut incomplete_before: Vec<(u32, tree::Snapshot, bool)> = vec![];
+    for id in &incomplete {
+        let dest = cx.dir("r").join(format!("pre{id}"));
+        let r = ops::restore(&w.arch, &None, &dest, &Sel::Band(*id), None, &[], false);
+        if r.panic.is_none() && r.result.is_ok() {
+            incomplete_before.push((*id, tree::snapshot(&dest), r.reported_error()));
+        }
+        crate::engine::force_remove(&dest);
+    }
+    let last_hunks_of_incomplete: Vec<String> = pre
+        .bands
+        .values()
+        .filter(|b| !b.tail.present_nonempty())
+        .filter_map(|b| b.hunks.last().map(|h| h.relpath.clone()))
+        .collect();
     let files = format::all_files(&pristine);
     let only = cx.only_inner.clone();
     let mut evals = 0u64;
@@ -155,6 +178,24 @@ fn run_damaged(h: &History, flips: &[u16], cx: &mut Cx) -> CaseResult {
                 if !exact {
                     broken = Some(format!("version {id}: {}", if r.clean() { "restored tree differs".to_string() } else { r.describe() }));
                     break;
+                }
+            }
+            if broken.is_none() && !(d == Dmg::Delete && last_hunks_of_incomplete.contains(f)) {
+                for (id, before, before_reported) in &incomplete_before {
+                    n += 1;
+                    let dest = cx.dir("r").join(format!("d{n}"));
+                    let r = ops::restore(&w.arch, &None, &dest, &Sel::Band(*id), None, &[], false);
+                    // directories that the version does not list are created with the current time
+                    let diff = tree::first_diff(before, &tree::snapshot(&dest), CmpOpts { root_meta: false, dir_mtime: false, identity: false });
+                    let same = r.panic.is_none()
+                        && r.result.is_ok()
+                        && r.reported_error() == *before_reported
+                        && diff.is_none();
+                    crate::engine::force_remove(&dest);
+                    if !same {
+                        broken = Some(format!("interrupted version {id} no longer restores as it did before the damage ({}; before reported={before_reported}; diff={diff:?})", r.describe()));
+                        break;
+                    }
                 }
             }
             evals += 1;
@@ -215,7 +256,7 @@ pub fn prop() -> Prop<Case> {
     Prop {
         id: "C09",
         level: "fault_enumeration",
-        rule: "two generated case kinds. Healthy: history as C02 (interruptions are stop-the-world before a storage operation; steps during which a band without header exists are skipped) with validate(full) and validate(quick) after every archive operation: must return Ok with no monitor error and no ERROR event. Damaged: archive from a history of <=5 ops; inner domain enumerated: every file of the archive (header, heads, tails, hunks, blocks) x {delete, truncate to 0, truncate to half, overwrite with garbage of equal length} + generated bit flips for blocks, BANDTAIL deletion excluded; for each, every complete version is restored and compared with its model snapshot, and if any no longer restores exactly full validate must report (Err, monitor error or ERROR event), and for deletions quick validate too. Non-trivial inner = damage that changes some restore (no-effect damages are counted separately in the histogram); non-trivial healthy case = >=2 versions with an interrupted band or a delete/gc; inner values distinct by construction",
+        rule: "two generated case kinds. Healthy: history as C02 (interruptions are stop-the-world before a storage operation; steps during which a band without header exists are skipped) with validate(full) and validate(quick) after every archive operation: must return Ok with no monitor error and no ERROR event. Damaged: archive from a history of <=5 ops; inner domain enumerated: every file of the archive (header, heads, tails, hunks, blocks) x {delete, truncate to 0, truncate to half, overwrite with garbage of equal length} + generated bit flips for blocks, BANDTAIL deletion excluded; for each, every complete version is restored and compared with its model snapshot and every interrupted version that has a head is restored and compared with its own pre-damage restore (deleting the last hunk of an interrupted version is exempt: indistinguishable from an earlier interruption), and if any no longer restores as before full validate must report (Err, monitor error or ERROR event), and for deletions quick validate too. Non-trivial inner = damage that changes some restore (no-effect damages are counted separately in the histogram); non-trivial healthy case = >=2 versions with an interrupted band or a delete/gc; inner values distinct by construction",
         assumptions: &[
             "'reported' is lenient: Err, a Monitor error, or a tracing event at ERROR level",
             "zero-length leftovers of killed writes are not part of the healthy side",
